@@ -144,6 +144,10 @@ func gQuorumJoint(c *Check) {
 		v := fi.RetSym(ret, 0)
 		site := p.site(ret)
 		isOne := v.Key() == idx[0].Key() || v.Key() == idx[1].Key()
+		if v.K == KBuiltin && v.Name == "min" && len(v.Args) == 2 {
+			k0, k1 := v.Args[0].Key(), v.Args[1].Key()
+			isOne = (k0 == idx[0].Key() && k1 == idx[1].Key()) || (k1 == idx[0].Key() && k0 == idx[1].Key())
+		}
 		c.Result(isOne, rule+".min", "JointConfig.CommittedIndex return value", fnName(jci), site, "returns one of the two per-majority indexes (same indexer)", "returns "+v.Key())
 		pr := p.Prove(fi, ret, []Req{ReqCmp(v, "<=", idx[0]), ReqCmp(v, "<=", idx[1])})
 		c.Result(pr.OK, rule+".min", "JointConfig.CommittedIndex return is the minimum", fnName(jci), site, "returned index <= both per-majority indexes", describeProof(pr), pr.Chain...)
